@@ -85,14 +85,15 @@ def run(ctx):
             continue
         if pv["rc"] == 0:
             st["accepted"] += 1
-            ctx.violation({"rule": "planted_violation_accepted", "operator": op, "variant": variant},
+            ctx.violation({"rule": "planted_violation_accepted", "operator": op, "variant": variant, "input": evaluate.input_id(c["spec"])},
                           {"case": c["id"], "planted": planted, "spec": c["spec"], "stderr": pv["stderr"][-1500:]})
         elif pv["class"]["panicked"] or pv["rc"] not in (0, 1) or pv["class"]["n_error"] == 0:
             st["panicked"] += 1
             from e2e import patterns
             pat = patterns.pattern_for_panic(c["spec"], pv["class"]["panic_loc"], pv["class"]["panic_msg"])
             ctx.violation({"rule": "refused_without_diagnostic", "operator": op, "variant": variant, "pattern": pat,
-                           "loc": evaluate.norm_loc(pv["class"]["panic_loc"]), "msg": evaluate.norm_msg(pv["class"]["panic_msg"])},
+                           "loc": evaluate.norm_loc(pv["class"]["panic_loc"]), "msg": evaluate.norm_msg(pv["class"]["panic_msg"]),
+                           "input": evaluate.input_id(c["spec"])},
                           {"case": c["id"], "planted": planted, "spec": c["spec"], "rc": pv["rc"], "stderr": pv["stderr"][-2500:]})
         else:
             st["rejected"] += 1
